@@ -89,7 +89,8 @@ static void add_obs(json &ev, const std::string &out) {
     for (auto &c : g_calls) { json a = json::array(); for (auto &w : c) a.push_back(codes_of(w)); calls.push_back(a); }
     ev["calls"] = calls;
     ev["prompts"] = count_of(out, "# ");
-    ev["errs"] = count_of(out, "Error");
+    std::string low = out; for (auto &c : low) c = (char)tolower((unsigned char)c);
+    ev["errs"] = count_of(low, "error");
     std::vector<std::string> lines;
     bool ok = parse_listing(out, lines);
     ev["listok"] = ok;
